@@ -24,11 +24,42 @@
 #include "c12_buf.inc"
 
 #include <time.h>
+#include <sys/personality.h>
+
+/* Targets of every family, so that a replay (--only target#index) enumerates just that family
+ * (case indices are per target and a target belongs to exactly one family). */
+#define NAME_N2S(fn, vtype, btype, sgn)	" " #fn
+#define NAME_S2N(fn, ctype)		" " #fn
+static const struct { const char *fam; const char *targets; } FAM_TARGETS[] = {
+	{ "base64", " base64_encode base64_decode base64_decode_fmt base64_en_copy " },
+	{ "hex", " cvt_hex2bin cvt_bin2hex " },
+	{ "num2str", N2S_LIST(NAME_N2S) " " },
+	{ "str2num", S2N_LIST(NAME_S2N) " " },
+	{ "utf8", " utf8_decode " },
+	{ "asn", " asn_parse " },
+	{ "crc32", " crc32a crc32cksum crc32mpeg2 crc32b crc32jamcrc crc32c crc32d crc32q crc32_normal4 crc32_normal8 crc32_reflect4 crc32_reflect8 " },
+	{ "mem_search", " mem_chr mem_rchr mem_chr_off mem_rchr_off mem_chr_ptr mem_rchr_ptr mem_find mem_find_off mem_find_ptr " },
+	{ "mem_find_stream", " mem_find_stream " },
+	{ "replace", " mem_replace_arr xml_encode xml_decode " },
+	{ "buf2args", " buf2args " },
+	{ "next_line", " buf_get_next_line " },
+	{ "xml", " xml_get_val_arr xml_get_val_ns_arr xml_calc_tag_count_args " },
+	{ "ini", " ini_buf_parse ini_buf_gen ini_val_set " },
+	{ "bt", " bt_en_decode " },
+	{ "bt_deep", " bt_en_decode/nesting-depth " },
+};
+
 static void
 fam_run(const char *name, void (*fn)(void)) {
 	const char *only = getenv("C12_FAM"); /* development aid: run one family / print CPU time per family */
 	clock_t t0 = clock();
+	size_t i; char pat[96];
 	if (NULL != only && 0 != strcmp(only, name) && 0 != strcmp(only, "timing")) return;
+	if (NULL != vh_only_target) {
+		snprintf(pat, sizeof(pat), " %s ", vh_only_target);
+		for (i = 0; i < sizeof(FAM_TARGETS) / sizeof(FAM_TARGETS[0]); i ++)
+			if (0 == strcmp(FAM_TARGETS[i].fam, name) && NULL == strstr(FAM_TARGETS[i].targets, pat)) return;
+	}
 	fn();
 	if (NULL != only) fprintf(stderr, "fam %-16s %7.2f s cpu, %llu cases so far\n", name, (double)(clock() - t0) / CLOCKS_PER_SEC, (unsigned long long)vh_global);
 }
@@ -36,6 +67,15 @@ fam_run(const char *name, void (*fn)(void)) {
 
 int
 main(int argc, char **argv) {
+	/* Wild reads (asn_parse indexes a table with a tag taken from the message) must hit the same
+	 * memory in every run and in the replay: switch address space randomisation off and re-exec. */
+	int pers = personality(0xffffffff);
+	if (-1 != pers && 0 == (pers & ADDR_NO_RANDOMIZE) && NULL == getenv("C12_NO_REEXEC")) {
+		if (-1 != personality((unsigned long)pers | ADDR_NO_RANDOMIZE)) {
+			setenv("C12_NO_REEXEC", "1", 1);
+			execv("/proc/self/exe", argv);
+		}
+	}
 	vh_init(argc, argv);
 	hg_init();
 	FAM(base64);
